@@ -6,6 +6,8 @@ CONSTANTS
   FixPrune = TRUE
   FixRestart = TRUE
   PruneOutsideLock = FALSE
+  WeakRegistry = FALSE
+  HeldSet <- H_true
   Hist = FALSE
   Atomic = FALSE
   Ops <- Ops_all
